@@ -785,7 +785,8 @@ class Facts:
     def promoted_value(self, body, idx):
         """value of promoted constant #idx of `body`: ('variant', adt, name) for a fieldless enum
         value, ('int', n) for scalars, else None"""
-        line = self.promoted.get("%s::{promoted#%d}" % (body.path, idx))
+        owner = body if isinstance(body, str) else body.path
+        line = self.promoted.get("%s::{promoted#%d}" % (owner, idx))
         if line is None:
             return None
         r = json.loads(line)
